@@ -1,8 +1,6 @@
 (* C02 - the checksum catches every single-word error and every swap of two words.
    Only statements; each is closed by an exact reference to the lemma that proves it. *)
 From PS Require Import Base GFDefs SpecDefs GFProofs ApiDefs SpecApi PackTheorems CoinProofs PhraseErrors ApiLemmas RefineProofs ApiTheorems RoundTrip.
-From PS Require Import CTieBase CTieGF.
-From PS.Gen Require CFuns.
 From PS.Gen Require Import Consts Langs.
 Local Open Scope N_scope.
 
